@@ -12,13 +12,14 @@ class Stream:
     """one correspondence stream: harness sub command -> cases.v -> coqc"""
 
     def __init__(self, name, cmd, n_quick, n_thorough, shards_thorough=1, valid=None, classify=None,
-                 extra_args=None, what="", timeout=3000):
+                 extra_args=None, what="", timeout=3000, shrinker=None):
         self.name, self.cmd = name, cmd
         self.n_quick, self.n_thorough, self.shards_thorough = n_quick, n_thorough, shards_thorough
         self.valid, self.classify = valid, classify
         self.extra_args = extra_args or []
         self.what = what
         self.timeout = timeout
+        self.shrinker = shrinker      # optional: input -> iterable of structurally smaller inputs
 
 
 class Prop:
@@ -47,6 +48,10 @@ def vo(v):
     return v[:-2] + ".vo"
 
 
+def private_harness(wd):
+    return os.path.join(wd, "lmdverif")
+
+
 def run_stream(prop, st, tier, seed, wd, replay=None, tag="main", shard=0):
     cases = os.path.join(wd, "cases_%s_%s_%d.v" % (st.name, tag, shard))
     meta = os.path.join(wd, "meta_%s_%s_%d.json" % (st.name, tag, shard))
@@ -55,12 +60,13 @@ def run_stream(prop, st, tier, seed, wd, replay=None, tag="main", shard=0):
             "--tier", tier] + st.extra_args
     if replay:
         args += ["--replay", replay]
-    rc, out, dur = V.harness(args, timeout=st.timeout)
+    rc, out, dur = V.sh([private_harness(wd)] + args, cwd=wd, timeout=st.timeout)
     if rc != 0:
         return {"ok": False, "stage": "harness", "out": out, "meta": None, "idx": []}
     m = json.load(open(meta))
     ok, idx, cout = V.eval_cases(cases)
-    return {"ok": ok, "stage": "coqc", "out": cout, "meta": m, "idx": idx, "harness_s": dur}
+    return {"ok": ok, "stage": "coqc", "out": cout, "meta": m, "idx": idx, "harness_s": dur,
+            "skipped": V.eval_cases.last_skipped}
 
 
 def shrink(prop, st, tier, seed, wd, inp):
@@ -68,11 +74,16 @@ def shrink(prop, st, tier, seed, wd, inp):
     best = inp
     for rnd in range(25):
         cands = []
-        for c in V.shrink_json(best):
+        import itertools
+        gens = [st.shrinker(best)] if st.shrinker else []
+        gens.append(V.shrink_json(best))
+        for c in itertools.chain(*gens):
             if st.valid and not st.valid(c):
                 continue
+            if V.json_size(c) >= V.json_size(best):
+                continue
             cands.append(c)
-            if len(cands) >= 150:
+            if len(cands) >= 200:
                 break
         if not cands:
             break
@@ -95,6 +106,9 @@ def run_property(prop, tier, replay=None):
     os.makedirs(wd, exist_ok=True)
     os.makedirs(os.path.join(V.VERIF, "replays"), exist_ok=True)
     known = load_known()
+    import glob
+    for old in glob.glob(os.path.join(V.VERIF, "replays", "%s_*.json" % prop.pid)):
+        os.remove(old)
     violations = []       # (replay path, note, no_input)
     known_hits = []
     broken = []           # names of theorems / correspondences that no longer check
@@ -126,7 +140,7 @@ def run_property(prop, tier, replay=None):
             broken.append("proof obligation no longer checks: " + " | ".join(failed))
             V.log(pout[-3000:])
         # 4. gate + assumptions
-        bad = V.gate()
+        bad = V.gate([prop.coq_props] + prop.coq_run + prop.extra_targets)
         if bad:
             raise V.CheckError("forbidden vernacular in the development: %s" % bad)
         obligations, per_file = V.count_obligations([prop.coq_props] + prop.extra_targets)
@@ -137,7 +151,12 @@ def run_property(prop, tier, replay=None):
             if not aok:
                 broken.append("Print Assumptions run failed")
         discharged = obligations if pok else 0
-        # 5. streams
+        if hok:
+            import shutil
+            shutil.copyfile(os.path.join(V.WORK, "bin", "lmdverif"), private_harness(wd))
+            os.chmod(private_harness(wd), 0o755)
+    # 5. streams (outside the build lock, with a private copy of the harness binary)
+    if True:
         evaluations, nontrivial, samples, programs, disagreements = 0, 0, [], 0, 0
         exhaustive = None
         rules = []
@@ -162,6 +181,7 @@ def run_property(prop, tier, replay=None):
                             broken.append("correspondence stream %s: model evaluation failed: %s" % (st.name, res["out"][-600:]))
                         continue
                     m = res["meta"]
+                    cov["skipped_outside_fragment"] = cov.get("skipped_outside_fragment", 0) + res.get("skipped", 0)
                     evaluations += m["cases"]
                     programs += m["cases"]
                     nontrivial += m["distinct_nontrivial"]
@@ -188,7 +208,7 @@ def run_property(prop, tier, replay=None):
                                 known_hits.append(kf)
                                 done_classes.add(cls)
                             continue
-                        if len(violations) >= 3:
+                        if len(violations) >= 2:
                             continue
                         small = shrink(prop, st, tier, seed, wd, inp)
                         rp = replay_path("%s_%d" % (st.name, len(violations)))
@@ -220,6 +240,7 @@ def run_property(prop, tier, replay=None):
             "programs": max(programs, 1), "disagreements_checked": disagreements,
             "exhaustive": bool(exhaustive),
             "cases_per_stream": cov["streams"], "input_histogram": cov["histogram"],
+            "skipped_outside_model_fragment": cov.get("skipped_outside_fragment", 0),
             "no_longer_checks": broken,
             "known_findings_hit": [f.get("id") for f in known_hits],
         },
